@@ -8,15 +8,15 @@ From Coq Require Import ZArith ZifyBool ZifyN ZifyNat.
 Definition plain_pc (p : pc) : bool :=
   match p with PR_top | PR_t_wsnap _ _ _ | PR_t_init _ _ => true | _ => false end.
 
-Lemma plain_pending th t rest : th_todo th = CRead t true :: rest -> plain_pc (th_pc th) = true ->
+Lemma plain_pending th t ck rest : th_todo th = CRead t ck :: rest -> plain_pc (th_pc th) = true ->
   forall t', del_pending t' th = [].
-Proof. intros Ht Hp t'. unfold del_pending. rewrite Ht. destruct (th_pc th); try discriminate; reflexivity. Qed.
-Lemma plain_hyd c cs th t rest : th_ok c cs th -> th_todo th = CRead t true :: rest -> plain_pc (th_pc th) = true ->
+Proof. intros Ht Hp t'. unfold del_pending. rewrite Ht. destruct ck; [|reflexivity]. destruct (th_pc th); try discriminate; reflexivity. Qed.
+Lemma plain_hyd c cs th t ck rest : th_okP c cs th -> th_todo th = CRead t ck :: rest -> plain_pc (th_pc th) = true ->
   hyd (rawts cs (t_id t)).
-Proof. intros Hok Ht Hp. eapply th_read_hyd; eauto. intros E. rewrite E in Hp. discriminate. Qed.
+Proof. intros Hok Ht Hp. eapply th_readP_hyd; eauto. intros E. rewrite E in Hp. discriminate. Qed.
 
-Lemma readF_common c progs cs L tid th t rest :
-  INVF c progs cs L -> nth_error (cs_threads cs) tid = Some th -> th_todo th = CRead t true :: rest ->
+Lemma readF_common c progs cs L tid th t ck rest :
+  INVF c progs cs L -> nth_error (cs_threads cs) tid = Some th -> th_todo th = CRead t ck :: rest ->
   head_topic th = Some (t_id t) /\ (forall t', th_mid t' th = false) /\ (forall t', th_holds t' th = false) /\
   (forall t', wr_pending t' th = []).
 Proof. intros Hinv Hth Htodo. unfold head_topic, th_mid, th_holds, wr_pending. rewrite Htodo. repeat split. Qed.
@@ -34,7 +34,7 @@ Lemma stepF_quiet c progs cs L tid th th' t0 (f : tstate -> tstate) :
   (hyd (rawts cs t0) -> hyd (f (rawts cs t0))) ->
   ts_writer (f (rawts cs t0)) = ts_writer (rawts cs t0) ->
   r_chain (reader_of (f (rawts cs t0))) = r_chain (reader_of (rawts cs t0)) ->
-  (th_ok c cs' th' /\ Forall (fun cl => simple_call cl = true) (th_todo th') /\ hist_ok (nth tid progs []) th') ->
+  (th_okP c cs' th' /\ Forall (fun cl => simple_callP cl = true) (th_todo th') /\ hist_ok (nth tid progs []) th') ->
   winF c cs' th' ->
   (forall t, del_seq t (nth tid progs []) th' = del_seq t (nth tid progs []) th /\
              wr_seq t (nth tid progs []) th' = wr_seq t (nth tid progs []) th) ->
@@ -61,7 +61,7 @@ Proof.
   - fold cs'. rewrite Heff'. apply effect_none; assumption.
   - exact Hth'.
   - intros j thj Hne Hj. destruct (Ith j thj Hj) as (Hokj & _ & _).
-    refine (others_th_ok c cs sh' tid th th' t0 Hth Hhead Hoth _ _ j thj Hne Hj Hokj).
+    refine (others_th_okP c cs sh' tid th th' t0 Hth Hhead Hoth _ _ j thj Hne Hj Hokj).
     + rewrite Hraw'. exact Hhyd.
     + intros j' thj' w _ _ _ Hw. rewrite Hraw', Hwr. exact Hw.
   - exact Hwin'.
@@ -84,7 +84,7 @@ Lemma stepF_same c progs cs L tid th th' t0 :
   INVF c progs cs L -> nth_error (cs_threads cs) tid = Some th -> head_topic th = Some t0 ->
   let cs' := upd cs (cs_sh cs) tid th' in
   (forall t, th_mid t th' = th_mid t th) -> (forall t, th_holds t th' = th_holds t th) ->
-  (th_ok c cs' th' /\ Forall (fun cl => simple_call cl = true) (th_todo th') /\ hist_ok (nth tid progs []) th') ->
+  (th_okP c cs' th' /\ Forall (fun cl => simple_callP cl = true) (th_todo th') /\ hist_ok (nth tid progs []) th') ->
   winF c cs' th' ->
   (forall t, del_seq t (nth tid progs []) th' = del_seq t (nth tid progs []) th /\
              wr_seq t (nth tid progs []) th' = wr_seq t (nth tid progs []) th) ->
@@ -106,7 +106,7 @@ Proof.
   - fold cs'. rewrite Heff'. apply effect_none; reflexivity.
   - exact Hth'.
   - intros j thj Hne Hj. destruct (Ith j thj Hj) as (Hokj & _ & _).
-    refine (others_th_ok c cs (cs_sh cs) tid th th' t0 Hth Hhead (fun _ _ => eq_refl) _ _ j thj Hne Hj Hokj); auto.
+    refine (others_th_okP c cs (cs_sh cs) tid th th' t0 Hth Hhead (fun _ _ => eq_refl) _ _ j thj Hne Hj Hokj); auto.
   - exact Hwin'.
   - intros j thj Hne Hj.
     refine (others_winF c cs (cs_sh cs) tid th th' t0 Hth Hhead (fun _ _ => eq_refl) Hm' _ _ j thj Hne Hj (Iwin j thj Hj)).
@@ -137,7 +137,7 @@ Proof.
   apply (stepF_same c progs cs L tid th th' t0 Hinv Hth Hhead).
   - intros t'. rewrite Hm. unfold th_mid, th'. cbn. now destruct rest as [|[| | |] ?].
   - intros t'. rewrite Hh. unfold th_holds, th'. cbn. now destruct rest as [|[| | |] ?].
-  - split; [apply th_ok_start; [reflexivity|cbn; rewrite Htodo in Hsimple; now inversion Hsimple]|].
+  - split; [apply th_okP_start; [reflexivity|cbn; rewrite Htodo in Hsimple; now inversion Hsimple]|].
     split; [cbn; rewrite Htodo in Hsimple; now inversion Hsimple|].
     apply (hist_ok_ret _ th th' cl r Hret Hres Hhist).
   - apply winF_start. reflexivity.
@@ -145,25 +145,25 @@ Proof.
 Qed.
 
 (* ------------------------------------------------------------------ read_next segments *)
-Lemma stepF_R_quiet c progs cs L tid th t rest p' (f : tstate -> tstate) :
+Lemma stepF_R_quiet c progs cs L tid th t ck rest p' (f : tstate -> tstate) :
   INVF c progs cs L ->
-  nth_error (cs_threads cs) tid = Some th -> th_todo th = CRead t true :: rest ->
+  nth_error (cs_threads cs) tid = Some th -> th_todo th = CRead t ck :: rest ->
   (forall ts w, f (with_writer ts w) = with_writer (f ts) w) ->
   (TInvP c (nid_of cs) (f (eff cs (t_id t))) /\ stream (f (eff cs (t_id t))) = stream (eff cs (t_id t)) /\
    unread c (f (eff cs (t_id t))) = unread c (eff cs (t_id t))) ->
   hyd (f (rawts cs (t_id t))) ->
   ts_writer (f (rawts cs (t_id t))) = ts_writer (rawts cs (t_id t)) ->
   r_chain (reader_of (f (rawts cs (t_id t)))) = r_chain (reader_of (rawts cs (t_id t))) ->
-  let th' := rthread t rest p' (th_done th) in
+  let th' := rthreadP t ck rest p' (th_done th) in
   let cs' := upd cs (upd_ts (cs_sh cs) (t_id t) (f (rawts cs (t_id t)))) tid th' in
-  (hyd (rawts cs' (t_id t)) -> th_ok c cs' th') ->
+  (hyd (rawts cs' (t_id t)) -> th_okP c cs' th') ->
   winF c cs' th' ->
   (forall t', del_pending t' th' = del_pending t' th) ->
   INVF c progs cs' L.
 Proof.
   intros Hinv Hth Htodo Hcomm Hq Hhyd Hwr Hch th' cs' Hok' Hwin' Hdp.
   pose proof Hinv as [Inext Its Ibf Ilock Ilen Ith Iwin Ilog Imine Iown Iowned].
-  destruct (readF_common c progs cs L tid th t rest Hinv Hth Htodo) as (Hhead & Hm & Hh & Hw).
+  destruct (readF_common c progs cs L tid th t _ rest Hinv Hth Htodo) as (Hhead & Hm & Hh & Hw).
   destruct (Ith tid th Hth) as (Hok & Hsimple & Hhist).
   apply (stepF_quiet c progs cs L tid th th' (t_id t) f Hinv Hth Hhead).
   - intros t'. now rewrite Hm.
@@ -185,36 +185,36 @@ Proof.
 Qed.
 
 (* hydration *)
-Lemma stepF_R1 c progs cs L tid th t rest :
+Lemma stepF_R1 c progs cs L tid th t ck rest :
   INVF c progs cs L ->
-  nth_error (cs_threads cs) tid = Some th -> th_todo th = CRead t true :: rest -> th_pc th = PStart ->
+  nth_error (cs_threads cs) tid = Some th -> th_todo th = CRead t ck :: rest -> th_pc th = PStart ->
   let ts := get_ts (sh_st (cs_sh cs)) (t_id t) in
-  INVF c progs (upd cs (upd_ts (cs_sh cs) (t_id t) (with_reader ts (rn_hydrate ts))) tid (rthread t rest PR_top (th_done th))) L.
+  INVF c progs (upd cs (upd_ts (cs_sh cs) (t_id t) (with_reader ts (rn_hydrate ts))) tid (rthreadP t ck rest PR_top (th_done th))) L.
 Proof.
   intros Hinv Hth Htodo Hpc ts. pose proof Hinv as [Inext Its Ibf Ilock Ilen Ith Iwin Ilog Imine Iown Iowned].
   set (t0 := t_id t) in *.
   pose proof (rn_hydrate_spec c (nid_of cs) (eff cs t0) (Its t0)) as Hsp. cbn zeta in Hsp.
   rewrite rn_hydrate_eff in Hsp. fold (rawts cs t0) in ts. fold ts in Hsp.
   destruct Hsp as (S1 & S2 & S3 & S4 & S5 & S6).
-  apply (stepF_R_quiet c progs cs L tid th t rest PR_top (fun x => with_reader x (rn_hydrate ts)) Hinv Hth Htodo).
+  apply (stepF_R_quiet c progs cs L tid th t ck rest PR_top (fun x => with_reader x (rn_hydrate ts)) Hinv Hth Htodo).
   - reflexivity.
   - apply same_reader_inv; auto.
   - exact S6.
   - reflexivity.
   - cbn [with_reader reader_of ts_reader]. rewrite S1. unfold chain_of. now rewrite reader_of_eff.
-  - intros Hy. unfold th_ok. cbn. split; [reflexivity|exact Hy].
-  - unfold winF. cbn. exact I.
-  - intros t'. unfold del_pending. cbn. now rewrite Htodo, Hpc.
+  - intros Hy. unfold th_okP. cbn. exact Hy.
+  - unfold winF. cbn. now destruct ck.
+  - intros t'. unfold del_pending. cbn. rewrite Htodo, Hpc. now destruct ck.
 Qed.
 
 (* an exhausted sealed block is stepped over (from the loop top, or on a retry) *)
-Lemma stepF_adv c progs cs L tid th t rest b :
+Lemma stepF_adv c progs cs L tid th t ck rest b :
   cfg_ok c -> INVF c progs cs L ->
-  nth_error (cs_threads cs) tid = Some th -> th_todo th = CRead t true :: rest -> plain_pc (th_pc th) = true ->
+  nth_error (cs_threads cs) tid = Some th -> th_todo th = CRead t ck :: rest -> plain_pc (th_pc th) = true ->
   let ts := get_ts (sh_st (cs_sh cs)) (t_id t) in
   let r := reader_of ts in
   nth_error (r_chain r) (r_idx r) = Some b -> b_used b <= r_off r ->
-  INVF c progs (upd cs (upd_ts (cs_sh cs) (t_id t) (with_reader ts (set_cur r (S (r_idx r)) 0))) tid (rthread t rest PR_top (th_done th))) L.
+  INVF c progs (upd cs (upd_ts (cs_sh cs) (t_id t) (with_reader ts (set_cur r (S (r_idx r)) 0))) tid (rthreadP t ck rest PR_top (th_done th))) L.
 Proof.
   intros Hc Hinv Hth Htodo Hpc ts r Hnth Hex. pose proof Hinv as [Inext Its Ibf Ilock Ilen Ith Iwin Ilog Imine Iown Iowned].
   destruct (Ith tid th Hth) as (Hok & _ & _).
@@ -223,15 +223,15 @@ Proof.
   pose proof (adv_step c Hh0 (nid_of cs) (eff cs (t_id t)) b (Its (t_id t))) as Hadv.
   rewrite reader_of_eff in Hadv. unfold chain_of in Hadv. rewrite reader_of_eff in Hadv.
   specialize (Hadv Hhy Hnth Hex). cbn zeta in Hadv.
-  apply (stepF_R_quiet c progs cs L tid th t rest PR_top (fun x => with_reader x (set_cur r (S (r_idx r)) 0)) Hinv Hth Htodo).
+  apply (stepF_R_quiet c progs cs L tid th t ck rest PR_top (fun x => with_reader x (set_cur r (S (r_idx r)) 0)) Hinv Hth Htodo).
   - reflexivity.
   - exact Hadv.
   - unfold hyd in *. cbn. exact Hhy.
   - reflexivity.
   - reflexivity.
-  - intros Hy. unfold th_ok. cbn. split; [reflexivity|exact Hy].
-  - unfold winF. cbn. exact I.
-  - intros t'. rewrite (plain_pending th t rest Htodo Hpc). reflexivity.
+  - intros Hy. unfold th_okP. cbn. exact Hy.
+  - unfold winF. cbn. now destruct ck.
+  - intros t'. rewrite (plain_pending th t _ rest Htodo Hpc). unfold del_pending. cbn. now destruct ck.
 Qed.
 
 (* the index write and the count update that follow a commit *)
@@ -239,19 +239,19 @@ Lemma stepF_idx c progs cs L tid th t rest tl rr pp :
   INVF c progs cs L ->
   nth_error (cs_threads cs) tid = Some th -> th_todo th = CRead t true :: rest -> th_pc th = PR_commit tl rr (Some pp) ->
   let ts := get_ts (sh_st (cs_sh cs)) (t_id t) in
-  INVF c progs (upd cs (upd_ts (cs_sh cs) (t_id t) (with_index ts pp)) tid (rthread t rest (PR_idx rr) (th_done th))) L.
+  INVF c progs (upd cs (upd_ts (cs_sh cs) (t_id t) (with_index ts pp)) tid (rthreadP t true rest (PR_idx rr) (th_done th))) L.
 Proof.
   intros Hinv Hth Htodo Hpc ts. pose proof Hinv as [Inext Its Ibf Ilock Ilen Ith Iwin Ilog Imine Iown Iowned].
   destruct (Ith tid th Hth) as (Hok & _ & _).
-  assert (Hhy : hyd (rawts cs (t_id t))) by (eapply th_read_hyd; eauto; rewrite Hpc; discriminate).
-  assert (Hro : exists o, rr = REntry o) by (unfold th_ok in Hok; rewrite Htodo, Hpc in Hok; tauto).
-  apply (stepF_R_quiet c progs cs L tid th t rest (PR_idx rr) (fun x => with_index x pp) Hinv Hth Htodo).
+  assert (Hhy : hyd (rawts cs (t_id t))) by (eapply th_readP_hyd; eauto; rewrite Hpc; discriminate).
+  assert (Hro : exists o, rr = REntry o) by (unfold th_okP in Hok; rewrite Htodo, Hpc in Hok; tauto).
+  apply (stepF_R_quiet c progs cs L tid th t true rest (PR_idx rr) (fun x => with_index x pp) Hinv Hth Htodo).
   - reflexivity.
   - split; [apply TInvP_with_index; [apply Its|now apply hyd_eff]|]. split; reflexivity.
   - exact Hhy.
   - reflexivity.
   - reflexivity.
-  - intros Hy. unfold th_ok. cbn. split; [reflexivity|]. split; [exact Hy|exact Hro].
+  - intros Hy. unfold th_okP. cbn. split; [reflexivity|]. split; [exact Hy|exact Hro].
   - unfold winF. cbn. exact I.
   - intros t'. unfold del_pending. cbn. rewrite Htodo, Hpc. reflexivity.
 Qed.
@@ -265,11 +265,11 @@ Lemma stepF_ret c progs cs L tid th t rest rr :
                   {| th_todo := rest; th_pc := PStart; th_done := rr :: th_done th |}) L.
 Proof.
   intros Hinv Hth Htodo Hpc ts. pose proof Hinv as [Inext Its Ibf Ilock Ilen Ith Iwin Ilog Imine Iown Iowned].
-  destruct (readF_common c progs cs L tid th t rest Hinv Hth Htodo) as (Hhead & Hm & Hh & Hw).
+  destruct (readF_common c progs cs L tid th t _ rest Hinv Hth Htodo) as (Hhead & Hm & Hh & Hw).
   destruct (Ith tid th Hth) as (Hok & Hsimple & Hhist).
   set (th' := {| th_todo := rest; th_pc := PStart; th_done := rr :: th_done th |}).
   assert (Hro : exists o, rr = REntry o).
-  { unfold th_ok in Hok. rewrite Htodo in Hok. destruct Hpc as [(tl & Hpc)|Hpc]; rewrite Hpc in Hok; tauto. }
+  { unfold th_okP in Hok. rewrite Htodo in Hok. destruct Hpc as [(tl & Hpc)|Hpc]; rewrite Hpc in Hok; tauto. }
   destruct Hro as (o & ->).
   assert (Hmid' : forall t', th_mid t' th' = false) by (intros; unfold th_mid, th'; cbn; now destruct rest as [|[| | |] ?]).
   assert (Hholds' : forall t', th_holds t' th' = false) by (intros; unfold th_holds, th'; cbn; now destruct rest as [|[| | |] ?]).
@@ -282,7 +282,7 @@ Proof.
   - unfold hyd, count_sub. now destruct (1 =? 0).
   - unfold count_sub. now destruct (1 =? 0).
   - unfold count_sub. now destruct (1 =? 0).
-  - split; [apply th_ok_start; [reflexivity|]|split].
+  - split; [apply th_okP_start; [reflexivity|]|split].
     + cbn. rewrite Htodo in Hsimple. now inversion Hsimple.
     + cbn. rewrite Htodo in Hsimple. now inversion Hsimple.
     + eapply hist_ok_ret; eauto. exact I.
@@ -294,48 +294,48 @@ Proof.
 Qed.
 
 (* the sealed chain is exhausted: tail snapshot *)
-Lemma stepF_tail c progs cs L tid th t rest sb so :
+Lemma stepF_tail c progs cs L tid th t ck rest sb so :
   INVF c progs cs L ->
-  nth_error (cs_threads cs) tid = Some th -> th_todo th = CRead t true :: rest -> plain_pc (th_pc th) = true ->
-  INVF c progs (upd cs (cs_sh cs) tid (rthread t rest (PR_t_snap sb so) (th_done th))) L.
+  nth_error (cs_threads cs) tid = Some th -> th_todo th = CRead t ck :: rest -> plain_pc (th_pc th) = true ->
+  INVF c progs (upd cs (cs_sh cs) tid (rthreadP t ck rest (PR_t_snap sb so) (th_done th))) L.
 Proof.
   intros Hinv Hth Htodo Hpc. pose proof Hinv as [Inext Its Ibf Ilock Ilen Ith Iwin Ilog Imine Iown Iowned].
-  destruct (readF_common c progs cs L tid th t rest Hinv Hth Htodo) as (Hhead & Hm & Hh & Hw).
+  destruct (readF_common c progs cs L tid th t _ rest Hinv Hth Htodo) as (Hhead & Hm & Hh & Hw).
   destruct (Ith tid th Hth) as (Hok & Hsimple & Hhist).
   assert (Hhy : hyd (rawts cs (t_id t))) by (eapply plain_hyd; eauto).
   apply (stepF_same c progs cs L tid th _ (t_id t) Hinv Hth Hhead).
   - intros t'. now rewrite Hm.
   - intros t'. now rewrite Hh.
-  - split; [unfold th_ok; cbn; split; [reflexivity|exact Hhy]|]. split; [cbn; now rewrite <- Htodo|].
+  - split; [unfold th_okP; cbn; exact Hhy|]. split; [cbn; now rewrite <- Htodo|].
     eapply hist_ok_same; [|exact Hhist]. split; [now rewrite Htodo|reflexivity].
-  - unfold winF. cbn. exact I.
+  - unfold winF. cbn. now destruct ck.
   - apply seq_same; [split; [now rewrite Htodo|reflexivity]| |].
-    + intros t'. rewrite (plain_pending th t rest Htodo Hpc). reflexivity.
+    + intros t'. rewrite (plain_pending th t _ rest Htodo Hpc). unfold del_pending. cbn. now destruct ck.
     + intros t'. now rewrite Hw.
 Qed.
 
 (* the writer snapshot *)
-Lemma stepF_R5 c progs cs L tid th t rest sb so w :
+Lemma stepF_R5 c progs cs L tid th t ck rest sb so w :
   INVF c progs cs L ->
-  nth_error (cs_threads cs) tid = Some th -> th_todo th = CRead t true :: rest -> th_pc th = PR_t_snap sb so ->
+  nth_error (cs_threads cs) tid = Some th -> th_todo th = CRead t ck :: rest -> th_pc th = PR_t_snap sb so ->
   ts_writer (get_ts (sh_st (cs_sh cs)) (t_id t)) = Some w -> wl_holder (sh_wl (cs_sh cs)) (t_id t) = None ->
-  INVF c progs (upd cs (cs_sh cs) tid (rthread t rest (PR_t_wsnap sb so w) (th_done th))) L.
+  INVF c progs (upd cs (cs_sh cs) tid (rthreadP t ck rest (PR_t_wsnap sb so w) (th_done th))) L.
 Proof.
   intros Hinv Hth Htodo Hpc Hw0 Hfree. pose proof Hinv as [Inext Its Ibf Ilock Ilen Ith Iwin Ilog Imine Iown Iowned].
-  destruct (readF_common c progs cs L tid th t rest Hinv Hth Htodo) as (Hhead & Hm & Hh & Hw).
+  destruct (readF_common c progs cs L tid th t _ rest Hinv Hth Htodo) as (Hhead & Hm & Hh & Hw).
   destruct (Ith tid th Hth) as (Hok & Hsimple & Hhist).
-  assert (Hhy : hyd (rawts cs (t_id t))) by (eapply th_read_hyd; eauto; rewrite Hpc; discriminate).
+  assert (Hhy : hyd (rawts cs (t_id t))) by (eapply th_readP_hyd; eauto; rewrite Hpc; discriminate).
   assert (Hnm : mid cs (t_id t) = false) by (apply mid_false_free; assumption).
-  set (th' := rthread t rest (PR_t_wsnap sb so w) (th_done th)).
+  set (th' := rthreadP t ck rest (PR_t_wsnap sb so w) (th_done th)).
   assert (Hmideq : mid (upd cs (cs_sh cs) tid th') (t_id t) = false).
   { rewrite (mid_upd_same cs (cs_sh cs) tid th th' (t_id t) Hth); [exact Hnm|now rewrite Hm]. }
   pose proof (Its (t_id t)) as X. rewrite (eff_nomid _ _ Hnm) in X. unfold rawts in X.
   apply (stepF_same c progs cs L tid th th' (t_id t) Hinv Hth Hhead).
   - intros t'. now rewrite Hm.
   - intros t'. now rewrite Hh.
-  - split; [unfold th_ok; cbn; split; [reflexivity|exact Hhy]|]. split; [cbn; now rewrite <- Htodo|].
+  - split; [unfold th_okP; cbn; exact Hhy|]. split; [cbn; now rewrite <- Htodo|].
     eapply hist_ok_same; [|exact Hhist]. split; [now rewrite Htodo|reflexivity].
-  - unfold winF, th'. cbn [th_todo th_pc rthread]. fold th'. rewrite rawts_upd, Hmideq.
+  - unfold winF, th'. cbn [th_todo th_pc rthreadP]. fold th'. destruct ck; [|exact I]. rewrite rawts_upd, Hmideq.
     assert (Hbw : b_used w = sum_need c (b_ents w)).
     { pose proof (tp_writer _ _ _ X) as Hwf. unfold w_list in Hwf. rewrite Hw0 in Hwf. inversion Hwf as [|x l (A & _) _]. exact A. }
     assert (Hid : 0 < b_id w < nid_of cs).
@@ -344,7 +344,7 @@ Proof.
     + intros w' Hw'. rewrite Hw0 in Hw'. inversion Hw'. lia.
     + left. split; [reflexivity|]. exists w, []. split; [exact Hw0|]. split; [reflexivity|]. split; [now rewrite app_nil_r|exact Hbw].
   - apply seq_same; [split; [now rewrite Htodo|reflexivity]| |].
-    + intros t'. unfold del_pending. cbn. now rewrite Htodo, Hpc.
+    + intros t'. unfold del_pending. cbn. rewrite Htodo, Hpc. now destruct ck.
     + intros t'. now rewrite Hw.
 Qed.
 
@@ -361,15 +361,15 @@ Lemma stepF_del c progs cs L tid th t rest tl e pers ru (f : tstate -> tstate) :
   ts_writer (f (rawts cs (t_id t))) = ts_writer (rawts cs (t_id t)) ->
   r_chain (reader_of (f (rawts cs (t_id t)))) = r_chain (reader_of (rawts cs (t_id t))) ->
   INVF c progs (upd cs (upd_ts (cs_sh cs) (t_id t) (f (rawts cs (t_id t)))) tid
-                  (rthread t rest (PR_commit tl (REntry (out_of e)) pers) (th_done th)))
+                  (rthreadP t true rest (PR_commit tl (REntry (out_of e)) pers) (th_done th)))
        (log_add L (t_id t) tid [e]).
 Proof.
   intros Hinv Hth Htodo Hdp0 Hcomm Hun (Q1 & Q2 & Q3) Hhyd Hwr Hch.
   pose proof Hinv as [Inext Its Ibf Ilock Ilen Ith Iwin Ilog Imine Iown Iowned].
-  destruct (readF_common c progs cs L tid th t rest Hinv Hth Htodo) as (Hhead & Hm & Hh & Hw).
+  destruct (readF_common c progs cs L tid th t _ rest Hinv Hth Htodo) as (Hhead & Hm & Hh & Hw).
   destruct (Ith tid th Hth) as (Hok & Hsimple & Hhist).
   set (t0 := t_id t) in *.
-  set (th' := rthread t rest (PR_commit tl (REntry (out_of e)) pers) (th_done th)).
+  set (th' := rthreadP t true rest (PR_commit tl (REntry (out_of e)) pers) (th_done th)).
   set (sh' := upd_ts (cs_sh cs) t0 (f (rawts cs t0))).
   assert (Hoth : forall t', t' <> t0 -> get_ts (sh_st sh') t' = get_ts (sh_st (cs_sh cs)) t').
   { intros t' Hne. unfold sh'. rewrite get_ts_upd_ts. now replace (t' =? t0) with false by lia. }
@@ -390,11 +390,11 @@ Proof.
   - rewrite Heff', Hnid. exact Q1.
   - rewrite Heff'. split; [now rewrite app_nil_r|]. rewrite app_nil_r, Hun, Q3. reflexivity.
   - split; [|split].
-    + unfold th_ok, th'. cbn [th_todo th_pc rthread]. split; [reflexivity|]. split; [|eauto]. unfold hyd. rewrite rawts_upd. fold t0. rewrite Hraw'. exact Hhyd.
+    + unfold th_okP, th'. cbn [th_todo th_pc rthreadP]. split; [reflexivity|]. split; [|eauto]. unfold hyd. rewrite rawts_upd. fold t0. rewrite Hraw'. exact Hhyd.
     + cbn. now rewrite <- Htodo.
     + eapply hist_ok_same; eauto.
   - intros j thj Hne Hj. destruct (Ith j thj Hj) as (Hokj & _ & _).
-    refine (others_th_ok c cs sh' tid th th' t0 Hth Hhead Hoth _ _ j thj Hne Hj Hokj).
+    refine (others_th_okP c cs sh' tid th th' t0 Hth Hhead Hoth _ _ j thj Hne Hj Hokj).
     + intros _. rewrite Hraw'. exact Hhyd.
     + intros j' thj' w _ _ _ Hw0. rewrite Hraw', Hwr. exact Hw0.
   - unfold winF, th'. cbn. exact I.
@@ -427,7 +427,7 @@ Lemma stepF_read c m progs cs L tid th t rest b :
     let r4 := set_cur r (r_idx r) (r_off r + need c e) in
     forall r5 p, should_persist m r4 false = (r5, p) ->
     INVF c progs (upd cs (upd_ts (cs_sh cs) (t_id t) (with_reader ts r5)) tid
-                    (rthread t rest (PR_commit false (REntry (out_of e)) (pers_of p false (N.of_nat (r_idx r)) (r_off r + need c e))) (th_done th)))
+                    (rthreadP t true rest (PR_commit false (REntry (out_of e)) (pers_of p false (N.of_nat (r_idx r)) (r_off r + need c e))) (th_done th)))
          (log_add L (t_id t) tid [e]).
 Proof.
   intros Hc Hinv Hth Htodo Hpc ts r Hnth Hlt. pose proof Hinv as [Inext Its Ibf Ilock Ilen Ith Iwin Ilog Imine Iown Iowned].
@@ -446,7 +446,7 @@ Proof.
   rewrite Hsp in Hrest. cbn [fst] in Hrest.
   destruct Hrest as (Q1 & Q2 & Q3 & Q4).
   apply (stepF_del c progs cs L tid th t rest false e _ ru (fun x => with_reader x r5) Hinv Hth Htodo).
-  - apply (plain_pending th t rest Htodo Hpc).
+  - apply (plain_pending th t _ rest Htodo Hpc).
   - reflexivity.
   - exact Hun.
   - split; [exact Q1|split; [exact Q2|exact Q3]].
@@ -456,46 +456,54 @@ Proof.
 Qed.
 
 (* the loop top as a whole: from the loop top itself, or re-entered by one of the fix's checks *)
-Lemma stepF_rn_top c m progs cs L tid th t rest :
+Lemma stepF_rn_top c m progs cs L tid th t ck rest :
   cfg_ok c -> INVF c progs cs L ->
-  nth_error (cs_threads cs) tid = Some th -> th_todo th = CRead t true :: rest -> plain_pc (th_pc th) = true ->
-  match rn_top c m (cs_sh cs) t true with
-  | SPark sh' p' l => exists L', INVF c progs (upd cs sh' tid (rthread t rest p' (th_done th))) L'
+  nth_error (cs_threads cs) tid = Some th -> th_todo th = CRead t ck :: rest -> plain_pc (th_pc th) = true ->
+  match rn_top c m (cs_sh cs) t ck with
+  | SPark sh' p' l => exists L', INVF c progs (upd cs sh' tid (rthreadP t ck rest p' (th_done th))) L'
   | SDoneC sh' r => exists L', INVF c progs (upd cs sh' tid {| th_todo := rest; th_pc := PStart; th_done := r :: th_done th |}) L'
   | SBlockedC => True
   end.
 Proof.
   intros Hc Hinv Hth Htodo Hpc. unfold rn_top.
+  destruct (readF_common c progs cs L tid th t ck rest Hinv Hth Htodo) as (Hhead & Hm & Hh & Hw).
+  assert (Hnoop : forall r, res_ok (CRead t ck) r -> (forall t', del_hist t' [CRead t ck] [r] = []) ->
+            INVF c progs (upd cs (cs_sh cs) tid {| th_todo := rest; th_pc := PStart; th_done := r :: th_done th |}) L).
+  { intros r Hr Hd. apply (stepF_ret_noop c progs cs L tid th (CRead t ck) rest r (t_id t) Hinv Hth Htodo eq_refl Hr Hm Hh).
+    - intros t'. rewrite Hd. symmetry. apply (plain_pending th t ck rest Htodo Hpc).
+    - intros t'. now rewrite Hw. }
   destruct (nth_error (r_chain (reader_of (get_ts (sh_st (cs_sh cs)) (t_id t)))) (r_idx (reader_of (get_ts (sh_st (cs_sh cs)) (t_id t))))) as [b|] eqn:Hnth.
   - destruct (b_used b <=? r_off (reader_of (get_ts (sh_st (cs_sh cs)) (t_id t)))) eqn:Eex.
-    + exists L. apply (stepF_adv c progs cs L tid th t rest b Hc Hinv Hth Htodo Hpc Hnth). lia.
-    + destruct (stepF_read c m progs cs L tid th t rest b Hc Hinv Hth Htodo Hpc Hnth ltac:(lia)) as (e & Hbr & HI).
-      rewrite Hbr. cbn zeta in HI.
-      destruct (should_persist m _ false) as [r5 p] eqn:Esp. eexists. apply (HI r5 p eq_refl).
-  - exists L. apply (stepF_tail c progs cs L tid th t rest _ _ Hinv Hth Htodo Hpc).
+    + exists L. apply (stepF_adv c progs cs L tid th t ck rest b Hc Hinv Hth Htodo Hpc Hnth). lia.
+    + destruct ck.
+      * destruct (stepF_read c m progs cs L tid th t rest b Hc Hinv Hth Htodo Hpc Hnth ltac:(lia)) as (e & Hbr & HI).
+        rewrite Hbr. cbn zeta in HI.
+        destruct (should_persist m _ false) as [r5 p] eqn:Esp. eexists. apply (HI r5 p eq_refl).
+      * destruct (block_read c b _) as [[e consumed]|]; exists L; apply Hnoop; try exact I; intros t'; reflexivity.
+  - exists L. apply (stepF_tail c progs cs L tid th t ck rest _ _ Hinv Hth Htodo Hpc).
 Qed.
 
 (* after the writer snapshot, nothing sealed in between: the tail position is taken under this lock *)
-Lemma stepF_init c m progs cs L tid th t rest sb so a :
+Lemma stepF_init c m progs cs L tid th t ck rest sb so a :
   INVF c progs cs L ->
-  nth_error (cs_threads cs) tid = Some th -> th_todo th = CRead t true :: rest -> th_pc th = PR_t_wsnap sb so a ->
+  nth_error (cs_threads cs) tid = Some th -> th_todo th = CRead t ck :: rest -> th_pc th = PR_t_wsnap sb so a ->
   let ts := get_ts (sh_st (cs_sh cs)) (t_id t) in
   let r := reader_of ts in
   let off := if r_tail_bid r =? b_id a then r_tail_off r else 0 in
-  let ts1 := if true && (off =? 0) && (0 <? b_used a)
+  let ts1 := if ck && (off =? 0) && (0 <? b_used a)
              then let '(r', p) := should_persist m r true in
                   let ts' := with_reader ts r' in
                   if p then persist ts' true (b_id a) 0 else ts'
              else ts in
-  INVF c progs (upd cs (upd_ts (cs_sh cs) (t_id t) ts1) tid (rthread t rest (PR_t_init a off) (th_done th))) L.
+  INVF c progs (upd cs (upd_ts (cs_sh cs) (t_id t) ts1) tid (rthreadP t ck rest (PR_t_init a off) (th_done th))) L.
 Proof.
   intros Hinv Hth Htodo Hpc ts r off ts1. pose proof Hinv as [Inext Its Ibf Ilock Ilen Ith Iwin Ilog Imine Iown Iowned].
   destruct (Ith tid th Hth) as (Hok & _ & _).
-  assert (Hhy : hyd (rawts cs (t_id t))) by (eapply th_read_hyd; eauto; rewrite Hpc; discriminate).
+  assert (Hhy : hyd (rawts cs (t_id t))) by (eapply th_readP_hyd; eauto; rewrite Hpc; discriminate).
   pose proof (Iwin tid th Hth) as Hwin. unfold winF in Hwin. rewrite Htodo, Hpc in Hwin.
   fold (rawts cs (t_id t)) in ts.
   set (f := fun x : tstate =>
-              if true && (off =? 0) && (0 <? b_used a)
+              if ck && (off =? 0) && (0 <? b_used a)
               then let '(r', p) := should_persist m r true in
                    let ts' := with_reader x r' in
                    if p then persist ts' true (b_id a) 0 else ts'
@@ -506,7 +514,7 @@ Proof.
   assert (Hfacts : TInvP c (nid_of cs) (f (eff cs (t_id t))) /\ stream (f (eff cs (t_id t))) = stream (eff cs (t_id t)) /\
                    unread c (f (eff cs (t_id t))) = unread c (eff cs (t_id t)) /\
                    r_chain (reader_of (f ts)) = r_chain r /\ hyd (f ts) /\ ts_writer (f ts) = ts_writer ts).
-  { unfold f. destruct (true && (off =? 0) && (0 <? b_used a)).
+  { unfold f. destruct (ck && (off =? 0) && (0 <? b_used a)).
     - destruct (should_persist m r true) as [r' p] eqn:Esp. cbn zeta in Hin.
       destruct Hin as (I1 & I2 & I3 & I4 & I5 & I6 & I7 & I8 & I9 & I10).
       pose proof (should_persist_same m r true) as Hs. rewrite Esp in Hs. destruct Hs as (F1 & F2 & F3 & F4 & F5 & F6).
@@ -516,19 +524,19 @@ Proof.
     - split; [apply Its|]. repeat split; auto. }
   destruct Hfacts as (Q1 & Q2 & Q3 & G2 & G5 & G6).
   rewrite Hf.
-  apply (stepF_R_quiet c progs cs L tid th t rest (PR_t_init a off) f Hinv Hth Htodo).
-  - intros x w. unfold f. destruct (true && (off =? 0) && (0 <? b_used a)); [|reflexivity].
+  apply (stepF_R_quiet c progs cs L tid th t ck rest (PR_t_init a off) f Hinv Hth Htodo).
+  - intros x w. unfold f. destruct (ck && (off =? 0) && (0 <? b_used a)); [|reflexivity].
     destruct (should_persist m r true) as [r' p]. destruct p; reflexivity.
   - split; [exact Q1|split; [exact Q2|exact Q3]].
   - exact G5.
   - exact G6.
   - exact G2.
-  - intros Hy. unfold th_ok. cbn. split; [reflexivity|exact Hy].
-  - unfold winF. cbn [th_todo th_pc rthread]. rewrite rawts_upd, get_ts_upd_ts, N.eqb_refl.
+  - intros Hy. unfold th_okP. cbn. exact Hy.
+  - unfold winF. cbn [th_todo th_pc rthreadP]. destruct ck; [|exact I]. rewrite rawts_upd, get_ts_upd_ts, N.eqb_refl.
     rewrite (mid_upd_same cs _ tid th _ (t_id t) Hth) by (unfold th_mid; now rewrite Htodo).
     rewrite (nid_upd_ts cs _ tid _ (t_id t) (f ts)) by reflexivity.
     apply (J_same c (nid_of cs) (nid_of cs) (mid cs (t_id t)) ts (f ts) a G2 G6 (N.le_refl _) Hwin).
-  - intros t'. unfold del_pending. cbn. now rewrite Htodo, Hpc.
+  - intros t'. unfold del_pending. cbn. rewrite Htodo, Hpc. now destruct ck.
 Qed.
 
 (* the read from the snapshot passed the fix's checks: it is current, the commit is right *)
@@ -542,12 +550,12 @@ Lemma stepF_commit c m progs cs L tid th t rest a off e consumed :
    negb ((if r_tail_bid r =? b_id a then r_tail_off r else 0) =? off)) = false ->
   forall r6 p, should_persist m (set_tail r (b_id a) (off + consumed)) false = (r6, p) ->
   INVF c progs (upd cs (upd_ts (cs_sh cs) (t_id t) (with_reader ts r6)) tid
-                  (rthread t rest (PR_commit true (REntry (out_of e)) (pers_of p true (b_id a) (off + consumed))) (th_done th)))
+                  (rthreadP t true rest (PR_commit true (REntry (out_of e)) (pers_of p true (b_id a) (off + consumed))) (th_done th)))
        (log_add L (t_id t) tid [e]).
 Proof.
   intros Hc Hinv Hth Htodo Hpc Hlt Hbr ts r Hval r6 p Hsp. pose proof Hinv as [Inext Its Ibf Ilock Ilen Ith Iwin Ilog Imine Iown Iowned].
   destruct (Ith tid th Hth) as (Hok & _ & _).
-  assert (Hhy : hyd (rawts cs (t_id t))) by (eapply th_read_hyd; eauto; rewrite Hpc; discriminate).
+  assert (Hhy : hyd (rawts cs (t_id t))) by (eapply th_readP_hyd; eauto; rewrite Hpc; discriminate).
   pose proof (Iwin tid th Hth) as Hwin. unfold winF in Hwin. rewrite Htodo, Hpc in Hwin.
   fold (rawts cs (t_id t)) in ts. fold ts in Hwin.
   apply orb_false_iff in Hval. destruct Hval as (Hval & V3). apply orb_false_iff in Hval. destruct Hval as (V1 & V2).
@@ -659,13 +667,13 @@ Proof.
   - exact Q1.
   - apply effect_none; assumption.
   - destruct Hth' as [(-> & Hap)|(k & ->)].
-    + split; [unfold th_ok; cbn; exact Hap|]. split; [cbn; now rewrite <- Htodo|].
+    + split; [unfold th_okP; cbn; exact Hap|]. split; [cbn; now rewrite <- Htodo|].
       eapply hist_ok_same; [|exact Hhist]. split; [now rewrite Htodo|reflexivity].
-    + split; [apply th_ok_start; [reflexivity|cbn; rewrite Htodo in Hsimple; now inversion Hsimple]|].
+    + split; [apply th_okP_start; [reflexivity|cbn; rewrite Htodo in Hsimple; now inversion Hsimple]|].
       split; [cbn; rewrite Htodo in Hsimple; now inversion Hsimple|].
       apply (hist_ok_ret _ th _ (CAppend t e) (RErr k)); [exists rest; repeat split; auto|exact I|exact Hhist].
   - intros j thj Hne Hj. destruct (Ith j thj Hj) as (Hokj & _ & _).
-    refine (others_th_ok c cs sh' tid th th' t0 Hth Hhead Hoth Hraw_hyd _ j thj Hne Hj Hokj).
+    refine (others_th_okP c cs sh' tid th th' t0 Hth Hhead Hoth Hraw_hyd _ j thj Hne Hj Hokj).
     intros j' thj' w0 _ _ _ Hw0. now apply Hraw_w.
   - destruct Hth' as [(-> & _)|(k & ->)]; [unfold winF; cbn; exact I|apply winF_start; reflexivity].
   - intros j thj Hne Hj.
@@ -754,10 +762,10 @@ Proof.
   - apply (lock_same cs sh' tid th th' Ilock Hth); [reflexivity|]. intros t'. now rewrite Hh.
   - rewrite Heff', Hnid. exact A1.
   - rewrite Heff', (eff_nomid _ _ Hnm). unfold rawts. fold t0 raw. split; [exact A2|]. cbn [app]. now rewrite A3.
-  - split; [unfold th_ok, th'; cbn; exact I|]. split; [cbn; now rewrite <- Htodo|].
+  - split; [unfold th_okP, th'; cbn; exact I|]. split; [cbn; now rewrite <- Htodo|].
     eapply hist_ok_same; [|exact Hhist]. split; [now rewrite Htodo|reflexivity].
   - intros j thj Hne Hj. destruct (Ith j thj Hj) as (Hokj & _ & _).
-    refine (others_th_ok c cs sh' tid th th' t0 Hth Hhead Hoth _ _ j thj Hne Hj Hokj).
+    refine (others_th_okP c cs sh' tid th th' t0 Hth Hhead Hoth _ _ j thj Hne Hj Hokj).
     + rewrite Hraw'. auto.
     + intros j' thj' w0 _ Hj' Hhold _. exfalso. specialize (Ilock t0). rewrite Hfree in Ilock. rewrite (Ilock j' thj' Hj') in Hhold. discriminate.
   - unfold winF, th'. cbn. exact I.
@@ -790,7 +798,7 @@ Proof.
   assert (Heff' : forall t', eff (upd cs sh' tid th') t' = eff cs t') by (intros t'; rewrite eff_upd, Hmideq; reflexivity).
   assert (Hsame : same_hist th th') by (split; [now rewrite Htodo|reflexivity]).
   assert (Hseq := seq_same (nth tid progs []) th th' Hsame).
-  assert (Hap : appendable c t (e_len e) = None) by (unfold th_ok in Hok; now rewrite Htodo, Hpc in Hok).
+  assert (Hap : appendable c t (e_len e) = None) by (unfold th_okP in Hok; now rewrite Htodo, Hpc in Hok).
   apply (INVF_ext c progs _ (log_add L t0 tid [])); [intros tt; symmetry; apply log_add_nil|].
   apply (INVF_step c progs cs L sh' tid th th' t0 [] [] Hinv Hth Hhead).
   - exact Ibf.
@@ -802,10 +810,10 @@ Proof.
     + intros t' _. apply Hh.
   - rewrite Heff'. apply Its.
   - rewrite Heff'. apply effect_none; reflexivity.
-  - split; [unfold th_ok, th'; cbn; split; [exact Hap|exact Hw0]|]. split; [cbn; now rewrite <- Htodo|].
+  - split; [unfold th_okP, th'; cbn; split; [exact Hap|exact Hw0]|]. split; [cbn; now rewrite <- Htodo|].
     eapply hist_ok_same; eauto.
   - intros j thj Hne Hj. destruct (Ith j thj Hj) as (Hokj & _ & _).
-    refine (others_th_ok c cs sh' tid th th' t0 Hth Hhead (fun _ _ => eq_refl) _ _ j thj Hne Hj Hokj); auto.
+    refine (others_th_okP c cs sh' tid th th' t0 Hth Hhead (fun _ _ => eq_refl) _ _ j thj Hne Hj Hokj); auto.
   - unfold winF, th'. cbn. exact I.
   - intros j thj Hne Hj.
     refine (others_winF c cs sh' tid th th' t0 Hth Hhead (fun _ _ => eq_refl) (fun t' _ => eq_refl) _ _ j thj Hne Hj (Iwin j thj Hj)).
@@ -832,7 +840,7 @@ Proof.
   destruct (Ith tid th Hth) as (Hok & Hsimple & Hhist).
   set (t0 := t_id t) in *. set (raw := get_ts (sh_st (cs_sh cs)) t0).
   set (th' := athread t e rest PA_seal_post (th_done th)). set (sh' := upd_ts (cs_sh cs) t0 (seal raw w)).
-  unfold th_ok in Hok. rewrite Htodo, Hpc in Hok. destruct Hok as (Hap & Hw0). fold t0 in Hw0. unfold rawts in Hw0. fold raw in Hw0.
+  unfold th_okP in Hok. rewrite Htodo, Hpc in Hok. destruct Hok as (Hap & Hw0). fold t0 in Hw0. unfold rawts in Hw0. fold raw in Hw0.
   assert (Hhold : th_holds t0 th = true) by (unfold th_holds; rewrite Htodo, Hpc; apply N.eqb_refl).
   assert (Hmth : th_mid t0 th = false) by (unfold th_mid; now rewrite Htodo, Hpc).
   assert (Hnm : mid cs t0 = false) by (eapply mid_false_holder; eauto).
@@ -860,9 +868,9 @@ Proof.
   - apply (lock_same cs sh' tid th th' Ilock Hth); [reflexivity|]. intros t'. unfold th_holds, th'. cbn. now rewrite Htodo, Hpc.
   - rewrite Heff', Hnid. exact S1.
   - rewrite Heff', (eff_nomid _ _ Hnm). unfold rawts. fold raw. apply effect_none; assumption.
-  - split; [unfold th_ok, th'; cbn; exact Hap|]. split; [cbn; now rewrite <- Htodo|]. eapply hist_ok_same; eauto.
+  - split; [unfold th_okP, th'; cbn; exact Hap|]. split; [cbn; now rewrite <- Htodo|]. eapply hist_ok_same; eauto.
   - intros j thj Hne Hj. destruct (Ith j thj Hj) as (Hokj & _ & _).
-    refine (others_th_ok c cs sh' tid th th' t0 Hth Hhead Hoth _ _ j thj Hne Hj Hokj).
+    refine (others_th_okP c cs sh' tid th th' t0 Hth Hhead Hoth _ _ j thj Hne Hj Hokj).
     + rewrite Hraw'. apply hyd_seal.
     + intros j' thj' w0 _ _ _ Hw1. rewrite Hraw'. exact Hw1.
   - unfold winF, th'. cbn. exact I.
@@ -892,7 +900,7 @@ Proof.
   destruct (appendF_common c progs cs L tid th t e rest Hinv Hth Htodo) as (Hhead & Hdp & Hown & Htl).
   destruct (Ith tid th Hth) as (Hok & Hsimple & Hhist).
   set (t0 := t_id t) in *. set (raw := get_ts (sh_st (cs_sh cs)) t0).
-  unfold th_ok in Hok. rewrite Htodo, Hpc in Hok.
+  unfold th_okP in Hok. rewrite Htodo, Hpc in Hok.
   pose proof Hc as (Hh0 & Hb0 & Hba & Hbm & Hme & Hhb).
   destruct (appendable_none_inv c t (e_len e) Hc Hok) as (Hname & Hsz). fold (need c e) in Hsz.
   destruct (alloc_sized_spec c (sh_st (cs_sh cs)) (need c e) Hb0 Hbm (need_pos c e Hh0) Hsz) as (s1 & nb & Ha & Hsame & Hnext & Hfresh & Hlim).
@@ -931,10 +939,10 @@ Proof.
     + intros t' Hne. eapply head_topic_holds_false; eauto.
   - rewrite Heff', Hnid. exact A1.
   - rewrite Heff', Heff0. split; [now rewrite A2, F2|]. cbn [app]. now rewrite A3, F3.
-  - split; [unfold th_ok, th'; cbn; exact I|]. split; [cbn; now rewrite <- Htodo|].
+  - split; [unfold th_okP, th'; cbn; exact I|]. split; [cbn; now rewrite <- Htodo|].
     eapply hist_ok_same; [|exact Hhist]. split; [now rewrite Htodo|reflexivity].
   - intros j thj Hne Hj. destruct (Ith j thj Hj) as (Hokj & _ & _).
-    refine (others_th_ok c cs sh' tid th th' t0 Hth Hhead Hoth _ _ j thj Hne Hj Hokj).
+    refine (others_th_okP c cs sh' tid th th' t0 Hth Hhead Hoth _ _ j thj Hne Hj Hokj).
     + rewrite Hraw'. auto.
     + intros j' thj' w0 Hne' Hj' Hhold' _. exfalso. specialize (Ilock t0).
       destruct (wl_holder (sh_wl (cs_sh cs)) t0) as [x|].
@@ -985,12 +993,12 @@ Proof.
   - apply (lock_same cs sh' tid th th' Ilock Hth); [reflexivity|]. intros; now rewrite Hholds', Hholds.
   - rewrite Heff', (nid_upd_ts cs sh' tid th' t0 (count_add raw 1)) by reflexivity. apply TInvP_count_add, Its.
   - rewrite Heff'. apply effect_none; [apply stream_count_add|apply unread_count_add].
-  - split; [apply th_ok_start; [reflexivity|]|split].
+  - split; [apply th_okP_start; [reflexivity|]|split].
     + cbn. rewrite Htodo in Hsimple. now inversion Hsimple.
     + cbn. rewrite Htodo in Hsimple. now inversion Hsimple.
     + eapply hist_ok_ret; eauto. exact I.
   - intros j thj Hne Hj. destruct (Ith j thj Hj) as (Hokj & _ & _).
-    refine (others_th_ok c cs sh' tid th th' t0 Hth Hhead Hoth _ _ j thj Hne Hj Hokj).
+    refine (others_th_okP c cs sh' tid th th' t0 Hth Hhead Hoth _ _ j thj Hne Hj Hokj).
     + rewrite Hraw'. apply hyd_count_add.
     + intros j' thj' w _ _ _ Hw. rewrite Hraw', writer_count_add. exact Hw.
   - apply winF_start. reflexivity.
